@@ -61,6 +61,7 @@ pub fn spec(id: &str) -> Option<Spec> {
             rule: "seeded histories of add/complete/pop on VirtQueue (size, indirect, event-idx, access-platform, legacy layout, device policy drawn per run); distinct = distinct event-log hash; non-trivial = at least 2 chains outstanding at a publication after more than SIZE submissions (descriptors recycled, free list permuted) or a completion consumed out of submission order; batch `drivers` borrows the C08 driver x transport x feature grid and judges only chain/descriptor-ownership classes",
             batches: vec![
                 b("history", scen::queue::history, 6000, 30_000),
+                b("history_heapfail", scen::queue::history_heapfail, 2000, 15_000),
                 heavy("wrap", scen::queue::wrap_history, 16, 96),
                 grid("drivers", scen::c08::run, scen::c08::GRID, 15, 600).only(CHAIN_CLASSES),
             ],
@@ -73,7 +74,12 @@ pub fn spec(id: &str) -> Option<Spec> {
             id: "C02",
             level: "exploration",
             rule: "same histories as C01; the observer validates, at every store hook, every entry below the available index read from device-visible memory; non-trivial as C01",
-            batches: vec![b("history", scen::queue::history, 6000, 30_000), heavy("wrap", scen::queue::wrap_history, 8, 64)],
+            batches: vec![
+                b("history", scen::queue::history, 6000, 30_000),
+                b("history_heapfail", scen::queue::history_heapfail, 2000, 15_000),
+                b("blocking", scen::queue::blocking_history, 2000, 40_000),
+                heavy("wrap", scen::queue::wrap_history, 8, 64),
+            ],
             extras: vec![],
             assumptions: vec!["native engine is sequentially consistent at store granularity; release/fence semantics are covered by the Miri engine (check script)", "non-coherent DMA is not modelled"],
             real: REAL_QUEUE.to_vec(),
@@ -86,6 +92,7 @@ pub fn spec(id: &str) -> Option<Spec> {
             batches: vec![
                 b("history", scen::queue::history, 6000, 30_000),
                 b("history_faulty", scen::queue::history_faulty, 3000, 20_000),
+                b("history_heapfail", scen::queue::history_heapfail, 2000, 15_000),
                 b("blocking", scen::queue::blocking_history, 3000, 60_000),
                 heavy("wrap", scen::queue::wrap_history, 32, 256),
             ],
@@ -101,6 +108,8 @@ pub fn spec(id: &str) -> Option<Spec> {
             batches: vec![
                 b("history", scen::queue::history, 6000, 30_000),
                 b("history_faulty", scen::queue::history_faulty, 3000, 20_000),
+                b("history_heapfail", scen::queue::history_heapfail, 2000, 15_000),
+                b("blocking", scen::queue::blocking_history, 2000, 40_000),
                 heavy("wrap", scen::queue::wrap_history, 8, 64),
                 b("drivers_blk", scen::c14::honest, 1500, 60_000).only(SHARE_CLASSES),
                 b("drivers_sound", scen::c20::sound_run, 1500, 60_000).only(SHARE_CLASSES),
